@@ -82,7 +82,7 @@ def family():
     for label, prog, meta in F.fam_selfbids():
         yield label, prog, dict(kind="single", horizon=10)
     for label, prog, meta in F.fam_markers():
-        yield label, prog, dict(kind="markers")
+        yield label, prog, dict(kind="markers-xy" if meta.get("xy") else "markers-deep" if meta.get("xe") else "markers")
     for label, prog, meta in F.fam_clones():
         if q and ("rear2" in label or "rear3" in label or "nested" in label):
             continue
@@ -126,6 +126,10 @@ def on_prog(p, idx, label, prog, meta):
     if kind == "indirect":
         runner.explore_and_check(p, idx, label, prog, cmp=cmp, alphabet=F.G_ALPHABET, back_alphabet=[None, {"g.x": 1}, {"g.x": 2}],
                                  watch=("v", "g.x"), depth=6, sample_every=1999)
+        return
+    if kind == "markers-xy":
+        runner.explore_and_check(p, idx, label, prog, cmp=cmp, alphabet=F.XY_ALPHABET, back_alphabet=[None, {"x": 1}],
+                                 watch=("x", "y", "env.e0"), depth=6, sample_every=1999)
         return
     if kind == "markers-deep":
         runner.explore_and_check(p, idx, label, prog, cmp=cmp, alphabet=F.XE_ALPHABET, back_alphabet=[None, {"x": 1}],
